@@ -606,7 +606,7 @@ META = {
              "ravel/src_index and validated against numpy.  Domain restrictions in the theorems: block size >= 1; non-negative "
              "dims for surjectivity; with the shape-only guess (yaxis=None, raw _write_cog) a cube-shaped band-first array is "
              "taken for band-last (C15_layout_guess_ambiguous_refuted) - write_cog/write_cog_layers pass the Y axis since fix "
-             "a0aeca2 and have no such restriction.  Overview block sizes and pixel values are GDAL's (tested: multiples of 16; "
+             "1cabe7b and have no such restriction.  Overview block sizes and pixel values are GDAL's (tested: multiples of 16; "
              "external overviews preserved).  A failure of GDAL after the guard unlinked the old file is not modelled.  No axioms."),
     "technique": "Coq proof over hand-written Gallina model + differential correspondence through real GDAL writes (vm_compute) + round-trip testing of the GDAL oracle",
     "design_ref": "DESIGN.md section 5, C15",
